@@ -97,7 +97,8 @@ class Row(Vector):
 			self._dtype = DataType(object, nullable=True)
 		else:
 			# Check uniformity of column types
-			col_dtypes = [col._dtype for col in table._underlying]
+			# (an empty column built without a dtype is untyped: treat it as object?)
+			col_dtypes = [col._dtype or DataType(object, nullable=True) for col in table._underlying]
 			unique_kinds = {dt.kind for dt in col_dtypes}
 			
 			if len(unique_kinds) == 1:
